@@ -635,6 +635,38 @@ class Rectangle(Shape):
         # the one in the AccessPoint class, which also moves the users)
         super(Rectangle, type(self)).pos.fset(self, value)  # type: ignore
 
+    # The radius of a rectangle is the distance from its center to its
+    # corners. When it is changed the corners are scaled (regarding the
+    # center) so that they are still at that distance.
+    @property
+    def radius(self) -> float:
+        """
+        Get the radius of the rectangle (distance from the center to the
+        corners).
+
+        Returns
+        -------
+        float
+            The rectangle radius.
+        """
+        return self._radius
+
+    @radius.setter
+    def radius(self, value: float) -> None:
+        """
+        Set the radius of the rectangle. The size of the rectangle is
+        changed accordingly (its proportions are kept).
+
+        Parameters
+        ----------
+        value : float
+            The new radius.
+        """
+        scale = value / self._radius
+        self._lower_coord = self.pos + scale * (self._lower_coord - self.pos)
+        self._upper_coord = self.pos + scale * (self._upper_coord - self.pos)
+        self._radius = value
+
     def __repr__(self) -> str:  # pragma: no cover
         """
         Representation of a Rectangle object.
